@@ -475,3 +475,30 @@ def sched_wait(futures: Any, timeout: Any = None, return_when: Any = None) -> tu
         s.block_on("any-thread-finished")
     done = {f for f in futures if f.done()}
     return done, futures - done
+
+
+def install_copy_points() -> None:
+    """A real interpreter may switch threads anywhere inside copy.deepcopy (pure Python code). The
+    copy module itself is not instrumented (thousands of lines per call); instead the deep copy of
+    every FrozenTrial is a scheduling point: that is the granularity at which a half-taken snapshot
+    of a trial list differs observably. Threads that are not scheduled pass straight through."""
+    import copy as _copy
+
+    from optuna.trial import FrozenTrial
+
+    if getattr(FrozenTrial, "_vf_copy_point", False):
+        return
+
+    def __deepcopy__(self: Any, memo: dict) -> Any:
+        s = _ACTIVE
+        if s is not None:
+            s.point("deepcopy")
+        cls = self.__class__
+        new = cls.__new__(cls)
+        memo[id(self)] = new
+        for k, v in self.__dict__.items():
+            new.__dict__[k] = _copy.deepcopy(v, memo)
+        return new
+
+    FrozenTrial.__deepcopy__ = __deepcopy__  # type: ignore[attr-defined]
+    FrozenTrial._vf_copy_point = True  # type: ignore[attr-defined]
